@@ -95,6 +95,7 @@ func LoadProgram(repo string, patterns []string) (*Program, error) {
 		structInfo: map[Sort]*types.Struct{}, sortCache: map[types.Type]Sort{},
 		writeSets: map[*ssa.Function]*FrameSet{}, srcCache: map[string][]byte{},
 	}
+	p.declBytesOf()
 	for i, pk := range pkgs {
 		p.PkgByPath[pk.PkgPath] = pk
 		p.PkgByName[pk.Name] = pk
@@ -435,6 +436,21 @@ func (p *Program) sortFromText(text string, pkg *types.Package) (Sort, types.Typ
 			return "", nil, err
 		}
 		return ArraySort(ks, SBool), nil, nil
+	}
+	if strings.HasPrefix(text, "amap[") && strings.HasSuffix(text, "]") {
+		parts := splitTop(text[5 : len(text)-1])
+		if len(parts) != 2 {
+			return "", nil, fmt.Errorf("amap needs two type arguments: %q", text)
+		}
+		ks, _, err := p.sortFromText(parts[0], pkg)
+		if err != nil {
+			return "", nil, err
+		}
+		vs, _, err := p.sortFromText(parts[1], pkg)
+		if err != nil {
+			return "", nil, err
+		}
+		return ArraySort(ks, vs), nil, nil
 	}
 	if strings.HasPrefix(text, "arr[") && strings.HasSuffix(text, "]") {
 		ks, _, err := p.sortFromText(text[4:len(text)-1], pkg)
